@@ -3,12 +3,14 @@ For each patch: scratch worktree of /repo -> apply -> pinned suite must pass -> 
 run the property's quick check against the worktree (VERIF_REPO) -> record under /verif/seeded/<prop>-<X>/ -> remove worktree."""
 import glob, json, os, re, shutil, subprocess, sys, tempfile
 only = sys.argv[1:]
+SEED_DIR = os.environ.get("SEED_DIR", "/tmp/seed")
+RENAME = {"A": "C", "B": "D", "C": "E"} if SEED_DIR.endswith("seed2") else {}
 ENV = dict(os.environ, PYTHONDONTWRITEBYTECODE="1")
 results = []
-for patch in sorted(glob.glob("/tmp/seed/C*-out/patch_*.diff")):
+for patch in sorted(glob.glob(SEED_DIR + "/C*-out/patch_*.diff")):
     prop = re.search(r"/(C\d\d)-out/", patch).group(1)
     X = re.search(r"patch_(\w)\.diff", patch).group(1)
-    sid = f"{prop}-{X}"
+    sid = f"{prop}-{RENAME.get(X, X)}"
     if only and prop not in only and sid not in only:
         continue
     demo = patch.replace("patch_", "demo_").replace(".diff", ".py")
@@ -43,6 +45,14 @@ for patch in sorted(glob.glob("/tmp/seed/C*-out/patch_*.diff")):
     shutil.copy(patch, out + "/patch.diff")
     if os.path.exists(demo):
         shutil.copy(demo, out + "/demo.py")
+    try:
+        desc = json.load(open("/verif/seeded/descriptions.json")).get(sid)
+        if desc:
+            meta["change"], meta["needs_to_manifest"] = desc
+    except Exception:
+        pass
+    meta["what_was_run"] = ("scratch worktree of /repo at HEAD; git apply patch.diff; pinned suite (/venv/bin/python -m pytest -q -p no:cacheprovider --timeout=900 -x); "
+                            "demo.py on the changed tree and on /repo; ./check <property> --tier quick with VERIF_REPO=<worktree>; worktree removed")
     json.dump(meta, open(out + "/meta.json", "w"), indent=1)
     print(sid, "suite_ok" if meta.get("suite_passes") else "SUITE?", "demo_ok" if meta.get("demo_discriminates") else "DEMO?",
           "DETECTED" if meta.get("detected_by_own_check") else "MISSED", "|", meta.get("check_quick", {}).get("line", "")[:110], flush=True)
